@@ -416,6 +416,11 @@ impl Solution {
         &self.stats
     }
 
+    /// Number of variables this solution assigns.
+    pub(crate) fn value_count(&self) -> usize {
+        self.values.len()
+    }
+
     /// Get assignments for the decision variables provided as a slice.
     #[must_use]
     pub fn get_values(&self, vs: &[VarId]) -> Vec<Val> {
